@@ -165,7 +165,12 @@ def long_cases(draw, tier):
     m = draw(st.integers(0, n))
     shaped = ["a" * n + "b" * n, "a" * n + "b", "a" * n + "b" * m, "a" * n + "bb", ("ab" * n)[:n] + ("ab" * n)[:n][::-1], "a" * n, "b" + "a" * n]
     extra = draw(st.lists(st.text(alphabet="ab", min_size=6, max_size=12), max_size=2))
-    return {"pda": spec, "words": shaped + extra, "limit": draw(st.sampled_from([1000, 60, 200]))}
+    limit = draw(st.sampled_from([1000, 60, 200]))
+    eps = spec["eps"]
+    if limit == 1000 and any(a == eps and u == eps and v != eps for p, a, u, q, v in spec["d"]):
+        # a pushing eps-move makes every closure of the library run to the limit with ever longer stacks: minutes per word at 1000 (only soundness is asserted there)
+        limit = 200
+    return {"pda": spec, "words": shaped + extra, "limit": limit}
 
 
 CLAUSES.append(
